@@ -1,10 +1,11 @@
 """C48 - Exported commands reproduce the request and are shell-safe (mitmproxy/addons/export.py).
 
 Every exported command is written to a script file exactly as export.file writes it (UTF-8, surrogateescape) and run by a
-real /bin/bash (a fraction also by /bin/dash) with PATH reduced to a scratch directory that holds stub `curl`, `http`
-and `pwned` executables dumping their argv and standard input; the oracle decodes the received argv with the documented
+real /bin/bash (a fraction also by /bin/dash) in which `curl`, `http` and `pwned` are stub commands (shell functions; PATH
+points nowhere) that dump their argv and standard input; the oracle decodes the received argv with the documented
 option semantics of curl and compares with the request."""
 import gzip
+import json
 import os
 import shutil
 import subprocess
@@ -12,7 +13,7 @@ import subprocess
 from lib.coqterm import cbytes, cbool, cN, clist, copt, hx, unhx
 
 ID = "C48"
-QUICK_N = 1600
+QUICK_N = 1300
 THOROUGH_N = 30000
 SHARD = 200
 RULE = ("55% requests built from per-field token dictionaries (shell metacharacters, quotes, command substitutions, "
@@ -41,43 +42,80 @@ WORK = os.path.join(VERIF, ".work", "C48", "sh")
 BASH = "/bin/bash"
 DASH = "/bin/dash"
 
-STUB_C = r"""
-#include <stdio.h>
-#include <stdlib.h>
-#include <string.h>
-#include <unistd.h>
-#include <fcntl.h>
-static char *buf; static size_t len, cap;
-static void put(const void *p, size_t n) { if (len + n + 64 > cap) { cap = (len + n + 64) * 2; buf = realloc(buf, cap); } memcpy(buf + len, p, n); len += n; }
-static void rec(char tag, const char *p, size_t n) { char h[32]; int k = snprintf(h, sizeof h, "%c%zu:", tag, n); put(h, k); put(p, n); }
-int main(int argc, char **argv) {
-  const char *out = getenv("C48_OUT"); if (!out) return 97;
-  const char *b = strrchr(argv[0], '/'); b = b ? b + 1 : argv[0];
-  put("R", 1); rec('A', b, strlen(b));
-  for (int i = 1; i < argc; i++) rec('A', argv[i], strlen(argv[i]));
-  char *in = NULL; size_t il = 0, ic = 0; ssize_t n;
-  for (;;) { if (il + 4096 > ic) { ic = (il + 4096) * 2; in = realloc(in, ic); } n = read(0, in + il, 4096); if (n <= 0) break; il += n; }
-  rec('I', in, il); put("E", 1);
-  int fd = open(out, O_WRONLY | O_CREAT | O_APPEND, 0600); if (fd < 0) return 98;
-  if (write(fd, buf, len) != (ssize_t)len) return 99;
-  close(fd); return 0;
-}
+DRIVER = r"""
+__rec() { { printf 'R'; for __a in "$@"; do printf 'A%d:%s' "${#__a}" "$__a"; done; __s=; __READ__; printf 'I%d:%s' "${#__s}" "$__s"; printf 'E'; } >> "$C48_OUT"; }
+curl() { __rec curl "$@"; }
+http() { __rec http "$@"; }
+pwned() { __rec pwned "$@"; }
+__i=0
+while [ $__i -lt __N__ ]; do
+  C48_OUT=__W__/o$__i
+  ( cd __W__/d$__i && . __W__/s$__i ) </dev/null >/dev/null 2>&1
+  echo $? > __W__/r$__i
+  __i=$((__i+1))
+done
 """
 
-# ------------------------------------------------------------------ running a command under a real shell
-_state = {}
+# ------------------------------------------------------------------ running commands under a real shell
+# Process creation is very slow on the build machine, so commands are run in batches: one shell process per batch,
+# every command sourced in its own subshell, in its own empty directory, with curl / http / pwned defined as shell
+# functions that record their argv and standard input (PATH points nowhere: nothing else can be executed).
+_state = {"batch": 0}
+_pending = []          # cases handed out by gen(), in order, not yet run
+_cache = {}
 
 
-def _build_stubs():
+def _init_work():
     shutil.rmtree(WORK, ignore_errors=True)
-    os.makedirs(os.path.join(WORK, "bin"))
-    os.makedirs(os.path.join(WORK, "cwd"))
-    src = os.path.join(WORK, "stub.c")
-    open(src, "w").write(STUB_C)
-    exe = os.path.join(WORK, "stub")
-    subprocess.run(["gcc", "-O1", "-o", exe, src], check=True, timeout=120)
-    for name in ("curl", "http", "pwned"):
-        shutil.copy(exe, os.path.join(WORK, "bin", name))
+    os.makedirs(WORK)
+
+
+def _run_group(cmds, shell):
+    _state["batch"] += 1
+    w = os.path.join(WORK, "b%d" % _state["batch"])
+    os.makedirs(w)
+    for i, c in enumerate(cmds):
+        os.mkdir(os.path.join(w, "d%d" % i))
+        with open(os.path.join(w, "s%d" % i), "wb") as fp:
+            fp.write(c)
+    read = "IFS= read -r -d '' __s" if shell == "bash" else ":"
+    drv = os.path.join(w, "driver")
+    open(drv, "w").write(DRIVER.replace("__READ__", read).replace("__N__", str(len(cmds))).replace("__W__", w))
+    env = {"PATH": "/nonexistent", "LC_ALL": "C", "HOME": "/nonexistent"}
+    argv = [BASH, "--norc", "--noprofile", drv] if shell == "bash" else [DASH, drv]
+    try:
+        subprocess.run(argv, cwd=w, env=env, stdin=subprocess.DEVNULL, stdout=subprocess.DEVNULL,
+                       stderr=subprocess.DEVNULL, timeout=900)
+    except subprocess.TimeoutExpired:
+        pass
+    res = []
+    for i in range(len(cmds)):
+        rcf, out = os.path.join(w, "r%d" % i), os.path.join(w, "o%d" % i)
+        if not os.path.exists(rcf):
+            res.append({"runs": [], "rc": -1, "files": [], "timeout": True})
+            continue
+        rc = int(open(rcf).read().strip() or -1)
+        data = open(out, "rb").read() if os.path.exists(out) else b""
+        files = sorted(os.listdir(os.path.join(w, "d%d" % i)))
+        try:
+            recs = _parse_records(data)
+        except Exception:  # interleaved background writers
+            recs = [([b"?"], b""), ([b"?"], b"")]
+        res.append({"runs": [[[hx(a) for a in argv_], hx(stdin)] for argv_, stdin in recs], "rc": rc, "files": files,
+                    "timeout": False})
+    shutil.rmtree(w, ignore_errors=True)
+    return res
+
+
+def run_shell_batch(jobs):
+    """jobs: [(cmd bytes, "bash"|"dash")] -> [{"runs": [[argv hex...], stdin hex], "rc", "files", "timeout"}]"""
+    out = [None] * len(jobs)
+    for shell in ("bash", "dash"):
+        idx = [i for i, (_, sh) in enumerate(jobs) if sh == shell]
+        if idx:
+            for i, r in zip(idx, _run_group([jobs[i][0] for i in idx], shell)):
+                out[i] = r
+    return out
 
 
 def _parse_records(data: bytes):
@@ -99,37 +137,6 @@ def _parse_records(data: bytes):
         i += 1
         recs.append((argv, stdin))
     return recs
-
-
-def run_shell(cmd: bytes, shell: str = "bash"):
-    """-> {"runs": [[argv hex...], stdin hex], "rc": int, "files": [...], "timeout": bool}"""
-    out = os.path.join(WORK, "out")
-    cwd = os.path.join(WORK, "cwd")
-    if os.path.exists(out):
-        os.remove(out)
-    script = os.path.join(WORK, "script")
-    with open(script, "wb") as fp:
-        fp.write(cmd)
-    env = {"PATH": os.path.join(WORK, "bin"), "C48_OUT": out, "LC_ALL": "C", "HOME": "/nonexistent"}
-    argv = [BASH, "--norc", "--noprofile", script] if shell == "bash" else [DASH, script]
-    timeout = False
-    try:
-        p = subprocess.run(argv, cwd=cwd, env=env, stdin=subprocess.DEVNULL, stdout=subprocess.DEVNULL,
-                           stderr=subprocess.DEVNULL, timeout=20)
-        rc = p.returncode
-    except subprocess.TimeoutExpired:
-        rc, timeout = -1, True
-    data = open(out, "rb").read() if os.path.exists(out) else b""
-    files = sorted(os.listdir(cwd))
-    for f in files:
-        pth = os.path.join(cwd, f)
-        shutil.rmtree(pth, ignore_errors=True) if os.path.isdir(pth) else os.remove(pth)
-    try:
-        recs = _parse_records(data)
-    except Exception:  # interleaved background writers
-        recs = [([b"?"], b""), ([b"?"], b"")]
-    return {"runs": [[[hx(a) for a in argv_], hx(stdin)] for argv_, stdin in recs], "rc": rc, "files": files,
-            "timeout": timeout}
 
 
 def clean_run(sh):
@@ -156,7 +163,7 @@ METHODS = [b"GET"] * 6 + [b"POST"] * 5 + [b"PUT", b"DELETE", b"PATCH", b"OPTIONS
                                           b"PO ST", b"GET;pwned", b"$(pwned)", b"`pwned`", b"GE'T", b'G"ET', b"-X", b"--help",
                                           b"M\xc3\x96VE", b"G\xffT", b"", b"GET\npwned"]
 SCHEMES = [b"http"] * 5 + [b"https"] * 4 + [b"ht tp", b"", b"ws", b"$(pwned)", b"h'"]
-HOSTS = ["example.com"] * 4 + ["address", "127.0.0.1", "::1", "a'b.com", "ex ample.com", "$(pwned).com", "münchen.de",
+HOSTS = ["example.com"] * 8 + ["address", "127.0.0.1", "::1", "a'b.com", "ex ample.com", "$(pwned).com", "münchen.de",
                                "", "-oX", "a;pwned;.com", "xn--mnchen-3ya.de", "h\"q.com", "`pwned`", "a\\b", "10.0.0.1"]
 PATHS = [b"/", b"/path", b"/path?a=foo&a=bar&b=baz", b"/a b", b"/;pwned;", b"/$(pwned)", b"/`pwned`", b"/'", b'/"', b"/%41%",
          b"/\\x", b"/\xc3\xa9", b"/\x01", b"/#frag", b"/*", b"*", b"/~", b"/!", b"/{a,b}", b"/\n", b"", b"/?q='$(pwned)'",
@@ -167,10 +174,10 @@ HNAMES = [b"content-type", b"Content-Type", b"accept", b"Accept-Encoding", b"acc
           b"transfer-encoding"]
 CTYPES = [b"text/plain", b"application/json", b"text/plain; charset=utf-8", b"text/plain; charset=latin-1",
           b"text/html; charset=utf-16", b"text/plain; charset=ascii", b"application/x-www-form-urlencoded",
-          b"multipart/form-data; boundary=xx", b"text/plain; charset=nonsense", b"application/octet-stream"]
+          b"multipart/form-data; boundary=xx", b"text/plain; charset=nonsense", b"text/plain; charset=utf-8-sig", b"application/octet-stream"]
 BODYTOK = [b"a", b"foo=bar&x=y", b'{"a": "b"}', b"'", b'"', b"'&#", b"$(pwned)", b"`pwned`", b";pwned;", b"\n", b"\r\n", b"\t",
            b"\x01", b"\x1b[2J", b"\x00", b"%", b"%s", b"%d", b"100%", b"\\", b"\\n", b"\\x41", b"\\\\", b"\\101", b"-", b"--xx\r\n",
-           b"@file", b"\xc3\xa9", b"\xe2\x82\xac", b"\xe9", b"\xff\xfe", b" ", b"x" * 40, b"\x7f", b"\x1f", b"\\c", b"%%", b"!"]
+           b"@file", b"\xc3\xa9", b"\xe2\x82\xac", b"\xe9", b"\xff\xfe", b"\xef\xbb\xbf", b" ", b"x" * 40, b"\x7f", b"\x1f", b"\\c", b"%%", b"!"]
 PEERS = [None, None, "127.0.0.1", "10.0.0.1", "::1", "", "example.com", "address"]
 VERSIONS = [b"HTTP/1.1", b"HTTP/1.1", b"HTTP/2.0", b"HTTP/1.0"]
 
@@ -370,6 +377,7 @@ def gen(rng, n, tier):
             out.append(gen_quote(rng))
         else:
             out.append(gen_raw(rng))
+    _pending.extend(out)
     return out
 
 
@@ -380,7 +388,7 @@ def setup_impl():
     from mitmproxy import exceptions, http  # noqa
     from mitmproxy.addons import export  # noqa
     from mitmproxy.test import taddons, tflow  # noqa
-    _build_stubs()
+    _init_work()
     cm = taddons.context()
     tctx = cm.__enter__()
     e = export.Export()
@@ -389,6 +397,7 @@ def setup_impl():
     # which variant of export.py is this tree? (before / after fixes/C48-*.diff)
     probe = _mkflow({"method": hx(b"GET"), "scheme": hx(b"http"), "host": hx(b"h"), "port": 80, "authority": "", "path": hx(b"/"),
                      "ver": hx(b"HTTP/1.1"), "headers": [], "content": hx(b"%\x01"), "peer": None})
+    _state["tctx"].options.export_preserve_original_ip = False
     c = export.curl_command(probe)
     _state["fp"] = "%%" in c
     _state["fg"] = "-X GET" in c
@@ -451,14 +460,40 @@ def _inputs(f):
     return inp
 
 
+BATCH = 150
+
+
+def _key(case):
+    return json.dumps(case, sort_keys=True)
+
+
 def run_impl(case):
+    k = _key(case)
+    if k not in _cache:
+        todo = [case]
+        while _pending and len(todo) < BATCH:
+            c = _pending.pop(0)
+            if _key(c) != k and _key(c) not in _cache:
+                todo.append(c)
+        staged = [_stage1(c) for c in todo]
+        jobs = [(cmd, sh) for _, js in staged for (_, cmd, sh) in js]
+        results = iter(run_shell_batch(jobs)) if jobs else iter(())
+        for c, (obs, js) in zip(todo, staged):
+            for slot, _, _ in js:
+                obs[slot] = next(results)
+            _cache[_key(c)] = obs
+    return _cache[k]
+
+
+def _stage1(case):
+    """everything but the shell runs -> (observation, [(slot, command bytes, shell)])"""
     k = case["k"]
     if k == "sh":
-        return {"sh": run_shell(unhx(case["cmd"]))}
+        return {}, [("sh", unhx(case["cmd"]), "bash")]
     if k == "quote":
         args = [unhx(a).decode("utf-8", "surrogateescape") for a in case["args"]]
         cmd = " ".join(shlex.quote(a) for a in args).encode("utf-8", "surrogateescape")
-        return {"cmd": hx(cmd), "sh": run_shell(cmd)}
+        return {"cmd": hx(cmd)}, [("sh", cmd, "bash")]
     if k == "raw":
         f = _mkflow(case)
         try:
@@ -469,7 +504,7 @@ def run_impl(case):
                    "content": None if d.content is None else hx(d.content),
                    "trailers": hx(bytes(d.trailers)) if d.trailers else ""}
         except Exception as e:
-            return {"skip": "inputs:" + type(e).__name__}
+            return {"skip": "inputs:" + type(e).__name__}, []
         try:
             out = {"ok": hx(export.raw_request(f))}
         except ValueError:
@@ -478,20 +513,23 @@ def run_impl(case):
             out = "CommandError"
         except Exception as e:
             out = "Other:" + type(e).__name__
-        return {"inp": inp, "out": out}
+        return {"inp": inp, "out": out}, []
     # req
     f = _mkflow(case)
     _state["tctx"].options.export_preserve_original_ip = case["preserve"]
     try:
         inp = _inputs(f)
     except Exception as e:
-        return {"skip": "inputs:" + type(e).__name__}
+        return {"skip": "inputs:" + type(e).__name__}, []
     obs = {"inp": inp, "fp": _state["fp"], "fg": _state["fg"]}
+    jobs = []
     for name, fn in (("curl", export.curl_command), ("httpie", export.httpie_command)):
         c = _export(fn, f)
         obs[name] = c
-        obs["sh_" + name] = run_shell(unhx(c["ok"]), case.get("sh", "bash")) if isinstance(c, dict) else None
-    return obs
+        obs["sh_" + name] = None
+        if isinstance(c, dict):
+            jobs.append(("sh_" + name, unhx(c["ok"]), case.get("sh", "bash")))
+    return obs, jobs
 
 
 # ------------------------------------------------------------------ Coq terms
